@@ -264,10 +264,10 @@ def ole_property_count(m, variant):
     return pptbin.write_ppt([{"title": "ZB00002", "body": ["ZB00003"]}], extra_streams={"\x05SummaryInformation": ps})
 
 
-OLE_EXT = {"doc": "doc", "doc-docsummary": "doc", "xls": "xls", "ppt": "ppt", "doc-lpstr": "doc", "doc-summary": "doc"}
+OLE_EXT = {"doc": "doc", "doc-docsummary": "doc", "xls": "xls", "ppt": "ppt", "doc-lpstr": "doc", "doc-summary": "doc", "doc-pid0": "doc", "doc-summary-pid0": "doc", "doc-second": "doc"}
 
 
-@family("ole-vector-length", "doc", variants=("doc", "xls", "ppt", "doc-lpstr", "doc-summary"), ms=(10, 10**5, 10**7, 0x7FFFFFFF, 0xFFFFFFFF))
+@family("ole-vector-length", "doc", variants=("doc", "xls", "ppt", "doc-lpstr", "doc-summary", "doc-pid0", "doc-summary-pid0", "doc-second"), ms=(10, 10**5, 10**7, 0x7FFFFFFF, 0xFFFFFFFF))
 def ole_vector_length(m, variant):
     """A VT_VECTOR property in a property set with a forged element count: VT_VECTOR|VT_NULL (elements occupy no bytes) or VT_VECTOR|VT_LPSTR."""
     from vf.gen import biff8, docbin, ole2, pptbin
@@ -276,11 +276,17 @@ def ole_vector_length(m, variant):
         variant = "doc"
     else:
         vec = struct.pack("<II", 0x1001, m) + bytes(8)
-    items = [(1, struct.pack("<Ihh", 2, 1252, 0)), (13, vec)]
+    pid = 13
+    if variant.endswith("-pid0"):           # the forged vector sits under property id 0 (the id of the dictionary property)
+        pid, variant = 0, variant[:-5]
+    items = [(1, struct.pack("<Ihh", 2, 1252, 0)), (pid, vec)]
+    if variant == "doc-second":             # ... or behind a property whose offset points outside the stream
+        items = [(1, struct.pack("<Ihh", 2, 1252, 0)), (5, b""), (13, vec)]
+        variant = "doc"
     off = 8 + 8 * len(items)
     table = values = b""
-    for pid, raw in items:
-        table += struct.pack("<II", pid, off + len(values))
+    for pid_, raw in items:
+        table += struct.pack("<II", pid_, (off + len(values)) if raw or pid_ != 5 else 0x7FFFFFF0)
         values += raw
     section = struct.pack("<II", off + len(values), len(items)) + table + values
     fmtid = getattr(ole2, "FMTID_DOCSUMMARY", bytes.fromhex("02d5cdd59c2e1b10939708002b2cf9ae"))
